@@ -556,6 +556,144 @@ def wide_join_history(rng, hid, params=None):
     return h
 
 
+def dup_disjunct_history(rng, hid, params=None):
+    """directed family (C16): a disjunctive value whose disjuncts become EQUAL (or included in one another) through a
+    disjunct-wise operation after the join (x := k, forget x, x := y), followed by explicit minimize()/normalize() calls and
+    queries; then the value is used further (meet, join, assume).  Minimisation must not change what the value describes."""
+    ints = [1, 2, 3]
+    x, y = rng.sample(ints, 2)
+    c = rng.randint(-2, 2)
+    a, b = rng.sample(range(-2, 3), 2)
+    pt = lambda r, v, k: {"op": "stmt", "r": r, "s": {"op": "assign", "x": v, "e": {"k": k, "t": []}}}
+    steps = [pt(1, x, a), pt(1, y, c), pt(2, x, b), pt(2, y, c if rng.random() < 0.7 else c + 1)]
+    if rng.random() < 0.4:      # a third disjunct that stays different
+        z3 = rng.choice([v for v in range(-2, 3) if v not in (c, c + 1)] or [c + 2])
+        steps += [{"op": "join", "r": 3, "a": 1, "b": 2}, pt(1, y, z3), {"op": "join", "r": 3, "a": 3, "b": 1}]
+    else:
+        steps += [{"op": "join", "r": 3, "a": 1, "b": 2}]
+    k = rng.choice(["assignc", "forget", "assignv", "havoc"])
+    if k == "assignc":
+        steps.append(pt(3, x, rng.randint(-2, 2)))
+    elif k == "forget":
+        steps.append({"op": "forget", "r": 3, "vs": [x]})
+    elif k == "assignv":
+        steps.append({"op": "stmt", "r": 3, "s": {"op": "assign", "x": x, "e": {"k": rng.randint(-1, 1), "t": [[1, y]]}}})
+    else:
+        steps.append({"op": "stmt", "r": 3, "s": {"op": "havoc", "x": x}})
+    if rng.random() < 0.3:
+        steps.append({"op": "copy", "r": 2, "a": 3})
+    steps.append({"op": rng.choice(["minimize", "minimize", "minimize", "normalize"]), "r": 3})
+    for _ in range(rng.randint(1, 3)):
+        q = rng.choice(["isbot", "entails", "query", "leq", "meet", "join", "assume", "minimize"])
+        if q == "isbot":
+            steps.append({"op": "isbot", "r": 3})
+        elif q == "entails":
+            steps.append({"op": "entails", "r": 3, "c": cst(rng, ints, rels=("le", "le", "lt", "eq", "ne"))})
+        elif q in ("query", "minimize"):
+            steps.append({"op": q, "r": 3})
+        elif q == "leq":
+            steps.append({"op": "leq", "r": 0, "a": rng.choice([1, 2, 3]), "b": rng.choice([1, 2, 3])})
+        elif q in ("meet", "join"):
+            steps.append({"op": q, "r": 1, "a": 3, "b": rng.choice([1, 2])})
+        else:
+            steps.append({"op": "stmt", "r": 3, "s": {"op": "assume", "c": cst(rng, ints, rels=("le", "le", "eq"))}})
+    h = {"id": hid, "vars": [{"n": n_, "t": "int"} for n_ in ("x", "y", "z")], "nregs": 3, "steps": steps, "stutter": rng.randint(0, 1)}
+    if params:
+        h["params"] = params
+    return h
+
+
+def large_history(rng, hid, params=None, lat=("join", "join", "meet", "meet", "widen", "widenjoin", "narrow", "copy")):
+    """directed family (C03/C04/C12): histories whose constants are LARGE (around +-M and +-2M, 2^25 <= M < 2^26+2^25):
+    beyond the precision of a float, with sums still inside TLC's 32-bit integers.  The trace carries its own sample of
+    top (`samp`: 0, +-1, +-M, +-(M+1)) and universe bound (`univ`); statements only add/subtract (no products)."""
+    M = rng.choice([2 ** 25 + 1, 2 ** 25 + 3, 2 ** 26 + 3, 2 ** 26 + 5, 50000001, 2 ** 25 + rng.randrange(1, 2 ** 25),
+                    2 ** 26 + rng.randrange(1, 2 ** 25)])
+    samp = sorted({0, 1, -1, M, M + 1, -M, -M - 1})
+    ints = [1, 2, 3]
+
+    def K(two):
+        a = rng.choice(samp)
+        b = rng.choice(samp) if two else 0
+        return a + b + rng.choice([-2, -1, 0, 0, 1, 2, 3])
+
+    def cons(rels=("le", "le", "le", "lt", "eq")):
+        if rng.random() < 0.65:
+            a, b = rng.sample(ints, 2)
+            sa, sb = rng.choice([(1, -1), (-1, 1), (1, 1), (-1, -1)])
+            if rng.random() < 0.1:
+                sa *= 2
+            return {"e": {"k": K(True), "t": [[sa, a], [sb, b]]}, "r": rng.choice(rels)}
+        return {"e": {"k": K(False), "t": [[rng.choice([1, -1, 1, -1, 2]), rng.choice(ints)]]}, "r": rng.choice(rels)}
+
+    def statement():
+        k = rng.choice(["assume"] * 6 + ["assignc", "assignv", "assignvv", "arith", "havoc"])
+        if k == "assume":
+            return {"op": "assume", "c": cons()}
+        x = rng.choice(ints)
+        if k == "assignc":
+            return {"op": "assign", "x": x, "e": {"k": rng.choice(samp) + rng.choice([-1, 0, 1]), "t": []}}
+        if k == "assignv":
+            return {"op": "assign", "x": x, "e": {"k": rng.choice([-1, 0, 1, 1, M, -M]), "t": [[rng.choice([1, 1, -1]), rng.choice(ints)]]}}
+        if k == "assignvv":
+            a, b = rng.sample(ints, 2)
+            return {"op": "assign", "x": x, "e": {"k": rng.choice([-1, 0, 1]), "t": [[1, a], [rng.choice([1, -1]), b]]}}
+        if k == "arith":
+            d = {"op": "arith", "f": rng.choice(["add", "sub"]), "x": x, "y": rng.choice(ints)}
+            if rng.random() < 0.5:
+                d.update({"zk": 1, "z": rng.choice([1, -1, 2, M, M + 1, -M])})
+            else:
+                d.update({"zk": 0, "z": rng.choice(ints)})
+            return d
+        return {"op": "havoc", "x": x}
+
+    regs = [1, 2]
+    steps = []
+    # tight prefix: octagonal constraints that hold at a sample point with slack 0 or 1 (sums of two of them have odd
+    # constants: integer tightening of octagons; the point must stay described)
+    for r in regs:
+        if rng.random() < 0.5:
+            pt = {v: rng.choice(samp) for v in ints}
+            for _ in range(rng.randint(2, 4)):
+                a, b = rng.sample(ints, 2)
+                sa, sb = rng.choice([(1, -1), (-1, 1), (1, 1), (-1, -1)])
+                steps.append({"op": "stmt", "r": r, "s": {"op": "assume", "c": {
+                    "e": {"k": -(sa * pt[a] + sb * pt[b] + rng.choice([0, 0, 1])), "t": [[sa, a], [sb, b]]}, "r": "le"}}})
+            if rng.random() < 0.5:
+                v = rng.choice(ints)
+                sg = rng.choice([1, -1])
+                steps.append({"op": "stmt", "r": r, "s": {"op": "assume", "c": {"e": {"k": -sg * pt[v], "t": [[sg, v]]}, "r": "le"}}})
+    n = len(steps) + rng.choice([6, 8, 10])
+    while len(steps) < n:
+        r = rng.choice(regs)
+        p = rng.random()
+        if p < 0.6:
+            steps.append({"op": "stmt", "r": r, "s": statement()})
+        elif p < 0.75:
+            k = rng.choice(lat)
+            a, b = rng.choice(regs), rng.choice(regs)
+            d = {"op": k, "r": r, "a": a, "b": b}
+            if k in ("join", "meet") and rng.random() < 0.4:
+                d["r"] = a
+                d["inplace"] = 1
+            if k in ("widen", "widenjoin") and rng.random() < 0.4:      # thresholds next to the large sample values
+                d["ts"] = sorted({rng.choice(samp) + rng.choice([-1, 0, 1, 2]) for _ in range(rng.randint(1, 3))})
+            steps.append(d)
+        elif p < 0.8:
+            steps.append({"op": "forget", "r": r, "vs": [rng.choice(ints)]})
+        elif p < 0.85:
+            steps.append({"op": rng.choice(["normalize", "query"]), "r": r})
+        elif p < 0.95:
+            steps.append({"op": "entails", "r": r, "c": cons(rels=("le", "le", "lt"))})
+        else:
+            steps.append({"op": "leq", "r": 0, "a": rng.choice(regs), "b": rng.choice(regs)})
+    h = {"id": hid, "vars": [{"n": n_, "t": "int"} for n_ in ("x", "y", "z")], "nregs": 2, "steps": steps, "stutter": 0,
+         "samp": samp, "univ": 2 ** 28}
+    if params:
+        h["params"] = params
+    return h
+
+
 def is_nontrivial(h):
     """rule used in the evidence: >= 1 relational assume/assign and >= 1 lattice operation"""
     rel = lat = False
@@ -620,6 +758,10 @@ def merge(histories, replay_recs):
             for j, m in enumerate(names):
                 if obs[i]["err"] == 0 and obs[j]["err"] == 0 and obs[i]["exact"] == 1 and (m == n + "#s" or m == "ref_" + n):
                     pairs.append([i + 1, j + 1])
-        traces.append({"id": h["id"], "nv": len(kinds), "kinds": kinds, "nregs": h["nregs"], "steps": h["steps"], "obs": obs,
-                       "pairs": pairs})
+        tr = {"id": h["id"], "nv": len(kinds), "kinds": kinds, "nregs": h["nregs"], "steps": h["steps"], "obs": obs,
+              "pairs": pairs}
+        for k in ("samp", "univ"):        # large-magnitude histories: their own sample of top and universe bound
+            if k in h:
+                tr[k] = h[k]
+        traces.append(tr)
     return traces
